@@ -14,7 +14,8 @@ TRUSTED = ['CPython inspect / functools.wraps semantics']
 
 def cases(rng, tier):
     n = 1500 if tier == 'quick' else 12000
-    return C.build_cases(rng, n, calls_per=3, style='kw', tag='c04a') + C.build_cases(rng, n // 4, calls_per=2, style=None, tag='c04b')
+    return C.build_cases(rng, n, calls_per=3, style='kw', tag='c04a') + C.build_cases(rng, n // 4, calls_per=2, style=None, tag='c04b') \
+        + C.scenario_cases(rng, n // 8, style='kw', tag='c04sc')
 
 
 def search(rng, tier, near):
@@ -40,7 +41,14 @@ def judge(case, impl, model):
             pfail = f'the body ran {impl["ran"]} times - {C.describe_case(case)}'
         elif impl['binding'] != tw['binding']:
             pfail = f'the body received other objects than in the undecorated twin: {impl["binding"]} vs {tw["binding"]} - {C.describe_case(case)}'
-    # no consumption: a one-shot iterator that reaches the body is still unconsumed (checked through the twin's journal in run_one: same objects)
+    # no consumption (every call, conforming or not): a one-shot iterator argument still holds all its items after the call -
+    # the scripted body never iterates, and the model never iterates an iterator (theorem checking_never_iterates_an_iterator)
+    want = C.iterator_items(case)
+    if pedantic and 'remaining' in impl and impl['remaining'] != want:
+        corr = False
+        why = (why + '; ' if why else '') + f'one-shot iterator arguments consumed: items left {impl["remaining"]}, built with {want}'
+        if impl['ran'] >= 1 and not pfail and impl['twin'].get('remaining') == want:     # the body saw a consumed iterator
+            pfail = f'checking consumed a one-shot iterator argument: items left {impl["remaining"]}, built with {want} (undecorated twin: untouched) - {C.describe_case(case)}'
     finding = None
     if pfail and corr:
         if 'untruthful' in model['regions'] or 'clazzFails' in model['regions']:
